@@ -26,6 +26,15 @@ fn length_case(rng: &mut Rng, idx: u64, rec: &mut Rec) {
     let avail = if huge { rng.usize_in(1, 5000) } else { n as usize };
     let mut stream = payload(avail, (idx % 200) as u8);
     if !huge {
+        // what stands behind the body is not the body's, whatever it looks like: one stream in four goes
+        // on with a line end of its own (servers that end a body with a CRLF) before the next response
+        match idx / 8 % 4 {
+            1 => {
+                rec.cov("length/line-end-behind-the-body");
+                stream.extend_from_slice(if idx / 32 % 2 == 0 { b"\r\n" } else { b"\r\n\r\n" })
+            }
+            _ => {}
+        }
         stream.extend_from_slice(NEXT);
     }
     let http10 = rng.chance(1, 4);
@@ -467,7 +476,7 @@ impl Property for P {
     fn floors(&self, _tier: Tier) -> Vec<(String, u64)> {
         [
             "length/window<left/*", "length/window=left/*", "length/window>left/out>=window", "length/window>left/out<window", "length/window>left/out=0", "length/read-after-complete", "close/out=0", "close/out<window", "close/out>=window",
-            "length/http10-request", "length/connect-refused", "close/connect-refused", "length/head-in-two-pieces/3xx", "close/proceed-early", "close/proceed-at-end", "close/with-four-other-close-reasons", "length/status-3xx", "length/behind-a-late-100", "length/status-other/http10-with-ignored-chunked", "close/redirect-with-unapplied-coding", "close/proceed-to-redirect",
+            "length/http10-request", "length/connect-refused", "close/connect-refused", "length/head-in-two-pieces/3xx", "close/proceed-early", "close/proceed-at-end", "close/with-four-other-close-reasons", "length/status-3xx", "length/behind-a-late-100", "length/status-other/http10-with-ignored-chunked", "close/redirect-with-unapplied-coding", "close/proceed-to-redirect", "length/line-end-behind-the-body",
         ]
         .iter()
         .map(|k| (k.to_string(), 50))
